@@ -20,13 +20,14 @@
   (ite (= o (specCurveOid 4)) 4 (ite (= o (specCurveOid 5)) 5 (ite (= o (specCurveOid 6)) 6 (ite (= o (specCurveOid 7)) 7
   (ite (= o (specCurveOid 8)) 8 (ite (= o (specCurveOid 9)) 9 (ite (= o (specCurveOid 10)) 10 (ite (= o (specCurveOid 11)) 11
   (ite (= o (specCurveOid 12)) 12 (ite (= o (specCurveOid 13)) 13 (- 1))))))))))))
-(define-fun curveName ((c Int)) String
-  (ite (= c 4) "P-224" (ite (= c 5) "P-256" (ite (= c 6) "P-384" (ite (= c 7) "P-521"
-  (ite (= c 8) "brainpoolP256r1" (ite (= c 9) "brainpoolP384r1" (ite (= c 10) "brainpoolP512r1"
-  (ite (= c 11) "brainpoolP256t1" (ite (= c 12) "brainpoolP384t1" "brainpoolP512t1"))))))))))
+(declare-fun curveName (Int) String)         ; crypto/elliptic CurveParams.Name of the ten curves
+(assert (and (= (curveName 4) "P-224") (= (curveName 5) "P-256") (= (curveName 6) "P-384") (= (curveName 7) "P-521")
+  (= (curveName 8) "brainpoolP256r1") (= (curveName 9) "brainpoolP384r1") (= (curveName 10) "brainpoolP512r1")
+  (= (curveName 11) "brainpoolP256t1") (= (curveName 12) "brainpoolP384t1") (= (curveName 13) "brainpoolP512t1")))
 (declare-fun pow256 (Int) Int)
 (declare-fun bePad (Int Int) Bytes)          ; value as exactly n big-endian bytes
 (assert (forall ((c Int)) (! (<= (curveOrder c) (pow256 (curveBytes c))) :pattern ((curveBytes c)))))
 (assert (forall ((v Int) (n Int)) (! (= (be (bePad v n)) v) :pattern ((bePad v n)))))
 (declare-fun ecPoint (Int Int Int) Bytes)    ; uncompressed point of a curve
 (declare-fun pkcs1priv (Int) Bytes)          ; PKCS#1 DER of an RSA private key object
+(declare-fun pkcs1pub (Int Int) Bytes)       ; PKCS#1 RSAPublicKey DER of (modulus, public exponent)
